@@ -33,18 +33,23 @@ MANIFEST = {
             "and firewalls in any order, every verdict permitting, succeed; with COLD caches a ping between two hosts on one switched "
             "LAN (other ports dead or other hosts, switch table arbitrary) and a ping host - router - host over direct cables (all "
             "three caches empty, the router's nested ARP exchange inside process_frame included) succeed, every ARP cascade part of "
-            "the statement. Tie: constants, comparison "
+            "the statement. A host's next hop for a destination outside every enabled local subnet is ALWAYS its default gateway: "
+            "a function of interfaces and gateway only, never of the ARP cache (the host-side resolution function is translated "
+            "statement by statement). Application exchanges identified by a (port, protocol) key (receiver look-up, open-port test, "
+            "answer to the source) are in the model; the addressee, termination and fuel theorems range over them. Float metrics: on "
+            "finite metrics the float loop is the integer loop; nan refutes lowest-metric-on-ties (open finding). Tie: constants, comparison "
             "operators, acceptance tests, call order and what the ranking argument rests on (DMZ broadcast guard, routers resolve "
             "without ARP, replies start nothing, ARP pairs genuine, find_best_route pure) regenerated from the source "
             "(Gen/Forward.lean) + rigs R-route and R-net (whole event streams, results and final tables of generated topologies "
-            "diffed against the model, plus the property's own oracle on the implementation) + R-app (real DNS / database exchanges "
-            "across generated routers, implementation-side oracles only).",
+            "diffed against the model, plus the property's own oracle on the implementation) + R-app (real DNS / database "
+            "/ web / FTP exchanges across generated routers, DIFFERENTIAL against the model's application exchange).",
     "note": "C08-specific: the termination theorem needs GoodCfg (unique MACs, next hops are addresses only routers carry); "
             "whether it is necessary is open (no counterexample known on the repaired code; the rig's misconfigured families "
             "terminate in model and implementation). Python's own recursion limit is outside the model. Liveness is PARTIAL: "
             "warm caches for arbitrary paths, cold caches only for one switched LAN and for host - router - host over direct "
             "cables; cold caches over switched LANs behind routers, several routers, firewalls, and the service exchange with "
-            "cold caches are checked by oracle (d) on the implementation, not proved. "
+            "cold caches are checked by oracle (d) on the implementation, not proved. FTP's client logic (PORT retry, STOR, QUIT) "
+            "is composed in the driver from proved steps, not part of the proved model. "
             "Metrics are Int in the model (float inf/nan not modelled). Rule lists are abstracted to one verdict per payload "
             "class (router: default ACL plus one permit flag; firewall: six lists x three classes); an air space frequency is "
             "modelled for two access points only; link / air space capacity is outside the forwarding model.",
@@ -55,7 +60,7 @@ MANIFEST = {
 MODULES = ["PrimaiteModel.Props.C08", "PrimaiteModel.Props.C08Forward", "PrimaiteModel.Lemmas.ForwardInv",
            "PrimaiteModel.Props.C08Addressee", "PrimaiteModel.Props.C08Liveness", "PrimaiteModel.Props.C08FuelMono",
            "PrimaiteModel.Props.C08Termination", "PrimaiteModel.Props.C08RouteOps", "PrimaiteModel.Props.C08Cold",
-           "PrimaiteModel.Props.C08ColdRouter"]
+           "PrimaiteModel.Props.C08ColdRouter", "PrimaiteModel.Props.C08HostHop", "PrimaiteModel.Props.C08Metric"]
 EXE = "drv_c08"
 
 
@@ -120,6 +125,42 @@ def _run_route(ctx: Ctx):
                       f"impl={impl2[i2] if i2 < len(impl2) else None!r} model={model2[i2] if i2 < len(model2) else None!r}",
                       {"rig": "route", "case": small, "lines": lines2, "impl": impl2, "model": model2, "from": name})
     ctx.oblige("rig:R-route agrees on every trace", "correspondence", agree == len(cases), f"{len(cases) - agree} of {len(cases)} traces disagree")
+    # float metrics (inf / -inf / nan) against Model/RouteMetric.lean; the tie-break oracle on what is comparable
+    frng = ctx.rng.fork("route-float")
+    fcases = [json.loads(f.read_text())["case"] for f in sorted((VERIF / "corpus" / "C08").glob("floatroute_*.json"))]
+    fcases += [rroute.gen_float_case(frng) for _ in range(ctx.scale(300, 3000))]
+    flines, fbounds, fimpl = [], [], []
+    for c in fcases:
+        ls = rroute.float_model_lines(c)
+        fbounds.append((len(flines), len(ls)))
+        flines += ls
+        fimpl.append(rroute.run_impl_float(c))
+    fout = run_driver(EXE, flines)
+    fagree = 0
+    reported = 0
+    for c, impl, (st0, ln) in zip(fcases, fimpl, fbounds):
+        model = fout[st0:st0 + ln]
+        ctx.cov["traces_validated_against_impl"] += 1
+        kinds = {str(o["route"]["metric"]) for o in c["ops"] if o["op"] == "add"}
+        for kd in ("inf", "-inf", "nan"):
+            if kd in kinds:
+                ctx.count("route-float-metric:" + kd)
+        ctx.case(["route-float", c], any(a.startswith("route") for a in impl))
+        if impl == model:
+            fagree += 1
+        else:
+            i = next(j for j, (a, b) in enumerate(zip(impl, model)) if a != b)
+            ctx.violation({"kind": "model-vs-impl", "rig": "route-float"}, f"find_best_route with float metrics differs from the model at "
+                          f"{flines[st0 + i]}: impl={impl[i]!r} model={model[i]!r}", {"rig": "route-float", "case": c})
+        bad = rroute.float_oracle(c, impl)
+        if bad:
+            ctx.count("route-float-nan-tiebreak-violations")
+            if reported < 1:
+                reported += 1
+                ctx.violation({"kind": "route-oracle", "site": "RouteTable.find_best_route", "metric": "nan"}, bad,
+                              {"rig": "route-float", "case": c})
+    ctx.oblige("rig:R-route (float metrics) agrees on every trace", "correspondence", fagree == len(fcases),
+               f"{len(fcases) - fagree} of {len(fcases)} traces disagree")
 
 
 # ---------------------------------------------------------------------------------------------- R-net
@@ -159,6 +200,7 @@ def _run_net(ctx: Ctx):
     if "bad-op" in out:
         raise RuntimeError(f"driver rejected a line: {[l for l, m in zip(lines_all, out) if m == 'bad-op'][:2]}")
     agree = 0
+    shrunk = 0
     for (name, case), impl, records, pos in zip(cases, impl_all, rec_all, pos_all):
         model = [rnet.canon_model_answer(out[p]) for p in pos]
         ctx.cov["traces_validated_against_impl"] += 1
@@ -174,7 +216,7 @@ def _run_net(ctx: Ctx):
                 if good == "1" and out[q] == "none":
                     ctx.oblige(f"fuel bound theorem instance on {name}", "correspondence", False,
                                f"{lines_all[q]} needs more than fuelBound although the configuration passes goodCfgB")
-        for key in ("via_host", "gw_is_host", "gw_off_subnet", "dmz_cross", "recursive_nh"):
+        for key in ("via_host", "gw_is_host", "gw_off_subnet", "dmz_cross", "recursive_nh", "two_gateway"):
             if notes.get(key):
                 ctx.count("net-misconfig:" + key)
         if notes.get("dual_homed") is not None:
@@ -230,7 +272,13 @@ def _run_net(ctx: Ctx):
 
         def fails(ops, case=case):
             return not _net_diff(dict(case, ops=ops))[0]
-        small = dict(case, ops=shrink_ops(case["ops"], fails, budget=60)) if i < len(case["ops"]) else case
+        # cheap first: everything after the first disagreeing op is irrelevant; then a bounded shrink for the first two
+        # disagreeing traces only (each evaluation = one implementation run + one driver process)
+        if i < len(case["ops"]):
+            case = dict(case, ops=case["ops"][:i + 1])
+        budget = (40, 15)[shrunk] if shrunk < 2 else 0
+        shrunk += 1
+        small = dict(case, ops=shrink_ops(case["ops"], fails, budget=budget)) if (i < len(case["ops"]) and budget) else case
         ok, impl2, model2, i2, _ = _net_diff(small)
         if ok:
             small, impl2, model2, i2 = case, impl, model, i
@@ -243,14 +291,26 @@ def _run_net(ctx: Ctx):
 
 
 # ---------------------------------------------------------------------------------------------- R-app
+def _app_diff(case: dict):
+    records = rnet.run_apps(case)
+    lines, groups = rnet.app_model_lines(case)
+    out = run_driver(EXE, lines)
+    model = rnet.app_model_answers(out, groups, case)
+    impl = [r["answer"] for r in records]
+    i = next((j for j, (a, b) in enumerate(zip(impl, model)) if a != b), -1)
+    return i < 0 and len(impl) == len(model), impl, model, i, records
+
+
 def _run_apps(ctx: Ctx):
-    """Real application exchanges (DNS look-up, database connect + query) across the generated routers: implementation only, the
-    property's own oracles (termination, TTL, addressee, permitted exchanges succeed).  Search / validation, not proof: the
-    model's service exchange is one UDP request / reply; these go through the same hand-over code with other ports and payloads."""
+    """R-app, DIFFERENTIAL: real application exchanges (DNS look-up, database connect + query, web page request, FTP transfer)
+    across the generated plain routers vs the model's port-parametrised request / answer exchange (`NetOp.app`): result of every
+    operation and its whole event stream; server software present or absent, router rules permitting or not.  Plus the
+    property's own oracles on the implementation side."""
     rng = ctx.rng.fork("app")
     want = ctx.scale(40, 300)
-    done = tries = 0
-    while done < want and tries < want * 12:
+    cases = []
+    tries = 0
+    while len(cases) < want and tries < want * 12:
         tries += 1
         case = rnet.gen_case(rng)
         kinds = {nd["kind"] for nd in case["nodes"]}
@@ -259,21 +319,49 @@ def _run_apps(ctx: Ctx):
         if ("firewall" in kinds or "wrouter" in kinds or not case.get("consistent") or len(hosts) < 2
                 or notes.get("dual_homed") is not None or notes.get("via_host") or notes.get("routing") == "broken"):
             continue
-        case = dict(case, ops=[])
-        records = rnet.run_apps(case)
-        done += 1
+        cases.append(rnet.add_app_plan(case, rng))
+    lines_all, spans, rec_all = [], [], []
+    for case in cases:
+        rec_all.append(rnet.run_apps(case))
+        lines, groups = rnet.app_model_lines(case)
+        spans.append((len(lines_all), groups))
+        lines_all += lines
+    out = run_driver(EXE, lines_all, timeout=3000)
+    if "bad-op" in out:
+        raise RuntimeError(f"driver rejected a line: {[l for l, m in zip(lines_all, out) if m == 'bad-op'][:2]}")
+    agree = 0
+    for case, records, (off, groups) in zip(cases, rec_all, spans):
+        model = rnet.app_model_answers(out, [[off + p for p in g] for g in groups], case)
+        impl = [r["answer"] for r in records]
+        notes = case.get("notes", {})
         ctx.cov["traces_validated_against_impl"] += 1
         ctx.count(f"app-routers:{notes.get('routers')}")
+        ctx.count(f"app-mode:{case['app']['mode']}")
         routed = False
         for r in records:
             ctx.count(f"app-exchange:{r['op']['op'][4:]}:{r['res']}")
             ctx.count("app-events", len(r["raw"]))
             routed = routed or any(e[0] == "hop" for e in r["raw"])
         ctx.case(["app", case], routed)
-        bad = rnet.oracle(case, records)
+        full = case["app"]["mode"] == "all"
+        bad = rnet.oracle(dict(case, consistent=full), records)
         if bad:
             ctx.violation({"kind": "net-oracle", "defect": bad["kind"], "family": "app"}, bad["what"], {"rig": "app", "case": case})
-    ctx.oblige("rig:R-app ran its application exchanges", "correspondence", done > 0, f"{done} cases")
+        if impl == model:
+            agree += 1
+            continue
+        i = next((j for j, (a, b) in enumerate(zip(impl, model)) if a != b), min(len(impl), len(model)))
+        small = dict(case, app=dict(case["app"], ops=case["app"]["ops"][:i + 1]))
+        ok, impl2, model2, i2, _ = _app_diff(small)
+        if ok:
+            small, impl2, model2, i2 = case, impl, model, i
+        op = small["app"]["ops"][i2] if 0 <= i2 < len(small["app"]["ops"]) else None
+        what = "result" if (0 <= i2 < len(impl2) and i2 < len(model2) and impl2[i2].split()[:1] != model2[i2].split()[:1]) else "events"
+        ctx.violation({"kind": "model-vs-impl", "rig": "app", "op": op["kind"] if op else "?", "what": what},
+                      f"application exchange differs from the model at op {i2} ({op}): impl={impl2[i2][:200] if 0 <= i2 < len(impl2) else None!r} "
+                      f"model={model2[i2][:200] if 0 <= i2 < len(model2) else None!r}",
+                      {"rig": "app", "case": small, "impl": impl2, "model": model2, "first_diff": i2})
+    ctx.oblige("rig:R-app agrees on every trace", "correspondence", agree == len(cases), f"{len(cases) - agree} of {len(cases)} traces disagree")
 
 
 def replay(rec: dict) -> bool:
@@ -285,8 +373,13 @@ def replay(rec: dict) -> bool:
     if r.get("rig") == "route":
         ok, impl, *_ = _route_diff(case)
         return ok and rroute.oracle(case, impl) is None
+    if r.get("rig") == "route-float":
+        impl = rroute.run_impl_float(case)
+        model = run_driver(EXE, rroute.float_model_lines(case))
+        return impl == model and rroute.float_oracle(case, impl) is None
     if r.get("rig") == "app":
-        return rnet.oracle(case, rnet.run_apps(case)) is None
+        ok, impl, model, i, records = _app_diff(case)
+        return ok and rnet.oracle(dict(case, consistent=case["app"]["mode"] == "all"), records) is None
     ok, impl, model, i, records = _net_diff(case)
     return ok and rnet.oracle(case, records) is None
 
